@@ -158,7 +158,8 @@ def body_wind_first(ctx, conv, kind, extras, position, by, fortran=False):
     else:
         da = xarray.DataArray(values, dims=dims)
     if by == 'axis':
-        wound = convention.wind(da, grid_kind=kind_obj, axis=position)
+        # (an axis number computed with numpy - argmax, get_axis_num on some versions - is a numpy integer)
+        wound = convention.wind(da, grid_kind=kind_obj, axis=numpy.intp(position) if position % 2 == 0 else position)
     elif by == 'name':
         wound = convention.wind(da, grid_kind=kind_obj, linear_dimension=lin)
     else:   # default: last dimension
